@@ -321,7 +321,7 @@ def check_setter(case):
     elif form == "nested-list":
         val, model = M.tolist(), M
     elif form == "callable":
-        c0 = float(lat.centre([0] * lat.ndim)[0]) + float(lat.cell[0]) * (n[0] / 2 - 0.5)
+        c0 = float(lat.vertex(0, (n[0] + 1) // 2))  # a cell face: every centre is half a cell away from the threshold
         val = lambda p: bool(np.atleast_1d(p)[0] < c0)  # noqa: E731
         model = np.zeros(n, dtype=bool)
         for idx in lat.indices():
